@@ -163,6 +163,34 @@ def crs_read_back_ok(rio_crs, spec: str, x: float, y: float) -> bool:
     return bool(all(math.isfinite(v) for v in (*p1, *p2)) and max(abs(p1[0] - p2[0]), abs(p1[1] - p2[1])) <= 1e-7)
 
 
+ARRAY_FORMS = ("plain", "plain", "fortran", "negative-stride", "strided", "read-only", "read-only-view")
+
+
+def array_form(data, form: str):
+    """The same values in another memory layout: Fortran order, a reversed or strided view of a larger buffer, a read-only array (what np.load(mmap_mode='r'), zarr, a
+    broadcast constant or a frozen cache hand over).  Returns an array that compares equal to `data`."""
+    import numpy as np
+
+    if form == "fortran":
+        return np.asfortranarray(data)
+    if form == "negative-stride":
+        return np.ascontiguousarray(data[..., ::-1])[..., ::-1]
+    if form == "strided":
+        big = np.zeros(tuple(2 * n for n in data.shape), dtype=data.dtype)
+        view = big[tuple(slice(None, None, 2) for _ in data.shape)]
+        view[...] = data
+        return view
+    if form == "read-only":
+        out = data.copy()
+        out.flags.writeable = False
+        return out
+    if form == "read-only-view":
+        base = data.copy()
+        base.flags.writeable = False
+        return base[...]
+    return data
+
+
 WARM = {"views": 0, "plain": 0}
 
 
